@@ -355,7 +355,7 @@ impl<'tcx> Dumper<'tcx> {
                 ])
             }
             Some(interpret::GlobalAlloc::Function { instance }) => obj(vec![("k", s("fn_alloc")), ("name", s(self.ppath(instance.def_id())))]),
-            Some(interpret::GlobalAlloc::Static(d)) => obj(vec![("k", s("static")), ("name", s(self.ppath(d)))]),
+            Some(interpret::GlobalAlloc::Static(d)) => obj(vec![("k", s("static")), ("name", s(self.ppath(d))), ("path", s(self.upath(d))), ("mutable", Json::Bool(self.tcx.is_mutable_static(d)))]),
             _ => obj(vec![("k", s("unknown_alloc"))]),
         }
     }
@@ -671,12 +671,14 @@ impl<'tcx> Dumper<'tcx> {
             let did = ldid.to_def_id();
             let kind = tcx.def_kind(did);
             let kind_s = format!("{:?}", kind);
-            let is_const = matches!(kind, DefKind::Const { .. } | DefKind::AssocConst { .. });
+            let is_const = matches!(kind, DefKind::Const { .. } | DefKind::AssocConst { .. } | DefKind::Static { .. });
             let has_mir = match kind {
                 DefKind::Fn | DefKind::AssocFn | DefKind::Closure => true,
                 // named constants (also associated consts of generic impls: the MIR is polymorphic): their initialiser is dumped so that ADT-typed constants
                 // (e.g. a `Duration`) can be folded by the analyses instead of being read as raw bytes
                 DefKind::Const { .. } | DefKind::AssocConst { .. } => true,
+                // immutable statics (lookup tables): their initialiser, like a const's
+                DefKind::Static { .. } => !tcx.is_mutable_static(did) && !tcx.is_foreign_item(did),
                 _ => false,
             };
             if !has_mir {
